@@ -41,6 +41,7 @@ struct Inner {
     broken: Vec<String>,
     notes: Vec<String>,
     replay_n: u64,
+    signatures: BTreeSet<String>,
 }
 
 pub struct Report {
@@ -184,6 +185,9 @@ impl Report {
             return;
         }
         g.unlisted += 1;
+        if g.signatures.len() < 5000 {
+            g.signatures.insert(signature.to_string());
+        }
         if g.violations.len() < 50 {
             g.violations
                 .push(json!({"signature": signature, "detail": detail}));
@@ -243,6 +247,7 @@ impl Report {
         }
         if !g.violations.is_empty() {
             cov.insert("violation_details".into(), Value::Array(g.violations.clone()));
+            cov.insert("violation_signatures".into(), json!(g.signatures));
         }
         if !g.broken.is_empty() {
             cov.insert("check_broken".into(), json!(g.broken));
